@@ -36,7 +36,11 @@ Record mode := mkmode {
   md_ocsp : bool;      (* <= 1.2: ServerHello carried status_request *)
   md_hrr : bool;       (* 1.3: a HelloRetryRequest round took place *)
   md_early : bool;     (* 1.3: the server accepted early data (EndOfEarlyData follows) *)
-  md_dtls : bool       (* DTLS 1.0 / 1.2: RFC 6347 4.2 - the TLS flows, preceded by an optional cookie exchange *)
+  md_dtls : bool;      (* DTLS 1.0 / 1.2: RFC 6347 4.2 - the TLS flows, preceded by an optional cookie exchange *)
+  md_declined : bool   (* the ClientHello OFFERED a resumption (pre_shared_key: external PSK or ticket / SessionTicket / session id) that
+                          the server did not select.  [md_res] says what was SELECTED, and the figures are indexed by that alone: no
+                          rule below reads this field ([legal_declined_irrelevant]) - an offer that is turned down leaves the full
+                          handshake of the mode due, client certificate included (RFC 8446 4.2.11, RFC 5077 3.1, RFC 5246 7.4.1.2) *)
 }.
 
 Definition is_psk (k : kex) : bool := match k with KexPSK | KexDHEPSK => true | _ => false end.
@@ -130,12 +134,14 @@ Definition kex_of (p d : bool) : kex := if p then (if d then KexDHEPSK else KexP
 Definition negotiated (c : cfg) (l : list item) : option mode :=
   let sv := c_server c in
   (* early data can only be accepted together with the PSK and not after a HelloRetryRequest (RFC 8446 4.2.10) *)
-  let mk13 hrr p e := Some (mkmode true sv KexECDHE (sv && c_cauth c && negb p) (if p then ResYes else ResNone) false false hrr (sv && e && p && negb hrr) false) in
+  let dcl := existsb offer_declined (hellos sv l) in
+  let mk13 hrr p e := Some (mkmode true sv KexECDHE (sv && c_cauth c && negb p) (if p then ResYes else ResNone) false false hrr (sv && e && p && negb hrr) false dcl) in
   let mk12 r p d tk st :=
     Some (mkmode false sv (kex_of p d) (sv && c_cauth c && negb r)
             (if r then ResYes else if negb sv && Z.eqb (c_tick c) T_SENT_TICKET && negb tk then ResMaybe else ResNone)
-            (negb sv && tk) (negb sv && st) false false (c_dtls c)) in
-  match hellos sv l with
+            (negb sv && tk) (negb sv && st) false false (c_dtls c) dcl) in
+  (* the hellos are read through [sel_view]: the mode is made of what was selected *)
+  match map sel_view (hellos sv l) with
   | [BHello12 r p d tk st] => mk12 r p d tk st
   | [BHello13 false p e] => mk13 false p e
   | [BHello13 true _ _; BHello13 false p e] => mk13 true p e
